@@ -452,12 +452,16 @@ def _tag_groups(q):
     return [t for t in sp.flags(q).get("tags", []) if t in ("sort", "parquet", "memusage", "flaky", "disk")]
 
 
+def _okey(qv, version):
+    return f"{qv[0]}|{qv[1]}|{version if 'parquet' in sp.flags(qv[0]).get('tags', []) else '-'}"
+
+
 def oracle(items, pq, cache, version):
     """Fresh-interpreter values of (qid, variation) pairs.  Children are batched so that no two queries that could
     share a cache entry (same tag group) meet in one interpreter."""
     from concurrent.futures import ThreadPoolExecutor
 
-    todo = [it for it in dict.fromkeys(items) if (it, version if "parquet" in sp.flags(it[0]).get("tags", []) else None) not in cache]
+    todo = [it for it in dict.fromkeys(items) if _okey(it, version) not in cache]
     batches = []
     for it in todo:
         groups = set(_tag_groups(it[0]))
@@ -476,11 +480,11 @@ def oracle(items, pq, cache, version):
     with ThreadPoolExecutor(8) as ex:
         for b, res in zip(batches, ex.map(run, batches)):
             for q, v in b["items"]:
-                cache[((q, v), version if "parquet" in sp.flags(q).get("tags", []) else None)] = res[f"{q}|{v}"]
+                cache[_okey((q, v), version)] = res[f"{q}|{v}"]
     return len(batches)
 
 
-def run_history(steps, pq):
+def run_history(steps, pq, ocache=None):
     """Execute a session script in THIS process; compare every observation with the fresh-interpreter oracle.
     -> {"observations": n, "mismatches": [...], "children": n}"""
     handles = {}
@@ -488,7 +492,8 @@ def run_history(steps, pq):
     sp.write_parquet(pq, 0)
     pending = []  # (step index, (q, v), observed dict, version)
     mismatches = []
-    ocache = {}
+    ocache = dict(ocache or {})
+    known = set(ocache)
     children = 0
 
     def flush(only_parquet):
@@ -498,7 +503,7 @@ def run_history(steps, pq):
             return
         children += oracle([p[1] for p in now], pq, ocache, version)
         for idx, qv, obs, ver in now:
-            ref = ocache[(qv, ver if "parquet" in sp.flags(qv[0]).get("tags", []) else None)]
+            ref = ocache[_okey(qv, ver)]
             for k, val in obs.items():
                 if json.dumps(val, sort_keys=True) != json.dumps(ref.get(k), sort_keys=True):
                     mismatches.append({"step": idx, "q": qv[0], "v": qv[1], "field": k, "session": _short(val), "fresh": _short(ref.get(k))})
@@ -560,7 +565,8 @@ def run_history(steps, pq):
             mismatches.append({"step": idx, "q": qv[0], "v": qv[1], "field": "step:" + op, "session": f"{type(e).__name__}: {str(e)[:160]}", "fresh": "no exception expected"})
     flush(only_parquet=False)
     nobs = sum(1 for s in steps if s["op"] in ("observe", "fail"))
-    return {"observations": nobs, "mismatches": mismatches, "children": children}
+    return {"observations": nobs, "mismatches": mismatches, "children": children,
+            "oracle_new": {k: v for k, v in ocache.items() if k not in known}}
 
 
 def _short(x, n=300):
@@ -588,16 +594,30 @@ def _sig(m):
     err = None
     if isinstance(m["session"], str) and "Error" in m["session"]:
         err = m["session"].split(":")[0].strip('"{} ')
-    return {"kind": "history", "tag": tag, "field": m["field"].split(":")[0], "error": err}
+    if isinstance(m["session"], str) and '"error"' in m["session"]:
+        try:
+            err = json.loads(m["session"]).get("error")
+        except ValueError:
+            pass
+    return {"kind": "history", "tag": tag, "field": None if err else m["field"].split(":")[0], "error": err}
+
+
+_ORACLE = {}  # fresh-interpreter values are pure: shared by all sessions of one check run
 
 
 def _run_session(steps, pq_root):
     import os
 
     pq = os.path.join(pq_root, "ds")
+    res = _run_session_raw(steps, pq)
+    _ORACLE.update(res.pop("oracle_new", {}))
+    return res
+
+
+def _run_session_raw(steps, pq):
     # one fixed hash seed for the session and (inherited) for its oracle interpreters: C15 compares histories, not
     # hash seeds (the seed dependence of fused-plan names is C08's finding)
-    return sp.run_child({"kind": "history", "steps": steps, "pq": pq}, env={"PYTHONHASHSEED": "0"}, timeout=1500)
+    return sp.run_child({"kind": "history", "steps": steps, "pq": pq, "oracle": _ORACLE}, env={"PYTHONHASHSEED": "0"}, timeout=1500)
 
 
 def _shrink(steps, mismatch, pq_root, budget):
@@ -675,7 +695,7 @@ def support(ctx, broken):
                 if key in seen_sigs:
                     continue
                 seen_sigs.add(key)
-                small = _shrink(steps, m, pq_root, budget=6 if ctx.quick else 25)
+                small = _shrink(steps, m, pq_root, budget=(5 if len(sup.failures) == 0 else 2) if ctx.quick else 25)
                 sup.failures.append(Failure(sig=sig, case={"steps": small, "expect": {"q": m["q"], "field": m["field"]}},
                                             detail=f"query {m['q']} (variation {m['v']}) observation {m['field']}: in session {m['session']} vs fresh interpreter {m['fresh']}; "
                                                    f"history shrunk to {len(small)} steps"))
